@@ -17,17 +17,18 @@ import (
 
 // finding ids (see /verif/findings.d/c20.json)
 const (
-	fTextUnescaped  = "C20-text-unescaped"       // literal < and & of text copied raw into the v-html sink
-	fEscapes        = "C20-escapes-unresolved"   // backslash escapes / character references not resolved
-	fHTMLClosure    = "C20-html-block-closure"   // closing line of an HTML block of type 1-5 dropped
-	fHardBreak      = "C20-hard-break-doubled"   // <br></br> parses as two breaks (pinned by the repo's fixtures)
-	fStartZero      = "C20-ol-start-zero"        // "0." list loses start="0"
-	fInlineNewline  = "C20-inline-newline"       // newline inserted after every inline element
-	fPrePadding     = "C20-pre-padding"          // "\n  " and "\n" inserted inside <pre> around <code>
-	fLinkTextTrim   = "C20-inline-content-trim"  // leading/trailing space of link text trimmed
-	fEmptyDest      = "C20-empty-destination"    // [a]() renders <a> without href
-	fAltLineBreak   = "C20-alt-line-break"       // a line ending inside an image description is dropped
-	fTightSeparator = "C20-tight-item-separator" // no line break between a tight item's text and a following HTML block
+	fTextUnescaped  = "C20-text-unescaped"         // literal < and & of text copied raw into the v-html sink
+	fEscapes        = "C20-escapes-unresolved"     // backslash escapes / character references not resolved
+	fHTMLClosure    = "C20-html-block-closure"     // closing line of an HTML block of type 1-5 dropped
+	fHardBreak      = "C20-hard-break-doubled"     // <br></br> parses as two breaks (pinned by the repo's fixtures)
+	fStartZero      = "C20-ol-start-zero"          // "0." list loses start="0"
+	fInlineNewline  = "C20-inline-newline"         // newline inserted after every inline element
+	fPrePadding     = "C20-pre-padding"            // "\n  " and "\n" inserted inside <pre> around <code>
+	fLinkTextTrim   = "C20-inline-content-trim"    // leading/trailing space of link text trimmed
+	fEmptyDest      = "C20-empty-destination"      // [a]() renders <a> without href
+	fAltCodeRaw     = "C20-alt-code-span-resolved" // character references / escapes inside a code span of an image description are resolved
+	fAltLineBreak   = "C20-alt-line-break"         // a line ending inside an image description is dropped
+	fTightSeparator = "C20-tight-item-separator"   // no line break between a tight item's text and a following HTML block
 	maxDocLines     = 40
 	maxInlineDepth  = 3
 	maxBlockDepth   = 3
@@ -35,12 +36,13 @@ const (
 )
 
 type gen struct {
-	t      *rapid.T
-	open   func(id string) bool // is the finding open?
-	excl   func(id string)      // count an exclusion
-	refs   []string             // link reference definitions to append
-	nlabel int
-	full   bool // ignore findings (used for the never-fails part, where only failure matters)
+	t        *rapid.T
+	open     func(id string) bool // is the finding open?
+	excl     func(id string)      // count an exclusion
+	refs     []string             // link reference definitions to append
+	nlabel   int
+	maxLines int  // 0 = maxDocLines
+	full     bool // ignore findings (used for the never-fails part, where only failure matters)
 }
 
 // allow reports whether a construct in the region of finding id may be generated.
@@ -411,7 +413,11 @@ func (g *gen) item(depth int, oneLine bool) string {
 		return g.refLink(depth, oneLine)
 	case 11:
 		alt := g.word()
-		switch g.n("alt", 0, 7) {
+		switch g.n("alt", 0, 8) {
+		case 8:
+			if g.allow(fAltCodeRaw) {
+				alt = g.word() + " `&amp; \\*` " + g.word() // code span content is literal, in a description too
+			}
 		case 6:
 			if !oneLine && g.allow(fAltLineBreak) {
 				alt = g.word() + "\n" + g.word() // a line ending inside the description
@@ -815,6 +821,10 @@ func (g *gen) block(depth int) []string {
 
 // document draws a whole document of at most maxDocLines lines.
 func (g *gen) document() string {
+	maxDocLines := maxDocLines
+	if g.maxLines > 0 {
+		maxDocLines = g.maxLines
+	}
 	n := g.n("blocks", 1, maxBlocksPerDoc)
 	var lines []string
 	for i := 0; i < n; i++ {
